@@ -11,9 +11,14 @@ Quantifiers: every state satisfying the representation invariant `Arr.Inv`
 (0 = NULL, duplicates), every index in the whole `Nat` domain, every growth function, every callback,
 every finite history, every allocator schedule (refusals included).
 
-Hypotheses used, all documented preconditions:
-* `0 < m.live` — the ledger knows at least the blocks of the array itself (needed only to state that
-  the `free` inside a re-allocation does not fault);
+Two things the model does not decide.  (i) "The array stores a private copy of the value it is given":
+elements are values (`Nat`) in the model, so this clause cannot fail there; it is carried by the
+harness (distinct caller cells, L2) only.  (ii) `(size_t)(capacity * exp_factor)` is undefined in C
+when the product is ≥ 2^64; `grow` is an arbitrary function, i.e. the theorems assume the cast yields
+*some* value, which is what the compiled code does but not what the C standard promises.
+
+No hypothesis on the ledger (the re-allocating operations allocate before they free) and none on the
+array's allocator triple (`a.triple`: configured or C library).  Only hypothesis, a documented one:
 * `hsort` — the assumed `qsort` returns a list of the same length (every permutation does; C18). -/
 namespace CC.Properties.C01
 open CC
